@@ -49,6 +49,22 @@ def instantiate(it, sets):
             for u in logs:
                 ax.append(f'(assert (=> (and (> {u} 0.0) (= {a} {_f("log", u)})) (= {_f("exp", a)} {u})))')
                 ax.append(f'(assert (=> (= {u} {_f("exp", a)}) (= {_f("log", u)} {a})))')
+    if 'exp_neglog' in sets:
+        # exp(-ln u) · u = 1 for u > 0
+        for a in exps:
+            for u in logs:
+                ax.append(f'(assert (=> (and (> {u} 0.0) (= (+ {a} {_f("log", u)}) 0.0)) (= (* {_f("exp", a)} {u}) 1.0)))')
+    if 'exp_ratio' in sets:
+        # a - b = c - d  =>  exp(a)·exp(d) = exp(b)·exp(c)
+        n = len(exps)
+        for i in range(n):
+            for j in range(n):
+                for k in range(i, n):
+                    for l in range(n):
+                        if i == j or k == l or (i, j) >= (k, l):
+                            continue
+                        a, b, c, d = exps[i], exps[j], exps[k], exps[l]
+                        ax.append(f'(assert (=> (= (- {a} {b}) (- {c} {d})) (= (* {_f("exp", a)} {_f("exp", d)}) (* {_f("exp", b)} {_f("exp", c)}))))')
     if 'log_mono' in sets:
         for a, b in itertools.combinations(logs, 2):
             ax.append(f'(assert (=> (and (> {a} 0.0) (> {b} 0.0)) (= (< {a} {b}) (< {_f("log", a)} {_f("log", b)}))))')
@@ -84,3 +100,17 @@ def instantiate(it, sets):
             ax.append(f'(assert (=> (and (> {b} 1.0) (< {e} 0.0)) (< {_f("pow", b, e)} 1.0)))')
             ax.append(f'(assert (=> (and (> {b} 1.0) (> {e} 0.0)) (> {_f("pow", b, e)} 1.0)))')
     return ax
+
+
+def obligations(it, sets):
+    """extra proof obligations (disjuncts of the main query) derived from the uninterpreted applications:
+    exp_range: no exp argument may exceed ln(f64::MAX) ~ 709.78 (intermediate overflow; path-insensitive, so a
+    sat answer is only believed after native replay)"""
+    if it.mode != 'R':
+        return []
+    ob = []
+    apps = {k: sorted(set(v)) for k, v in it.apps.items()}
+    if 'exp_range' in sets:
+        for (a,) in apps.get('exp', []):
+            ob.append(f'(> {a} 709.78)')
+    return ob
